@@ -90,8 +90,7 @@ Theorem C05_refuted_separator_in_element :
   decode_param no_int no_int no_float pq (ser pq (SArr ["a,b"; "c"])) = DRes (PA [PS "a"; PS "b"; PS "c"]) true None.
 Proof. vm_compute. reflexivity. Qed.
 
-(* class 6: an undeclared member is silently dropped;  class 4: with an additionalProperties schema
-   a declared integer member comes back as a string *)
+(* class 6: an undeclared member is silently dropped *)
 Definition intS : schema := Sch (mkCore (Some ["integer"]) [] false false false false "" false false false None None None 0 None "" 0 None [] 0 None None) None [] [] [] None [] None.
 Definition objS (ap : option schema) : schema :=
   Sch (mkCore (Some ["object"]) [] false false false false "" false false false None None None 0 None "" 0 None [] 0 None None) None [] [] [] None [("n", intS); ("s", strS)] ap.
@@ -101,9 +100,12 @@ Theorem C05_refuted_undeclared_member_dropped :
   decode_param one_int one_int no_float (po None) (ser (po None) (SObj [("n", "7"); ("zz", "x")]))
   = DRes (PO [("n", PI64 7)]) true None.
 Proof. vm_compute. reflexivity. Qed.
-Theorem C05_refuted_additional_properties_retype :
-  decode_param one_int one_int no_float (po (Some strS)) (ser (po (Some strS)) (SObj [("n", "7")]))
-  = DRes (PO [("n", PS "7")]) true None.
+(* the former class 4 witness, now on the side of the property (repaired in /repo): next to an
+   additionalProperties schema a declared integer member keeps its type, other members take the
+   additionalProperties schema *)
+Example C05_additional_properties_keep_declared_type :
+  decode_param one_int one_int no_float (po (Some strS)) (ser (po (Some strS)) (SObj [("n", "7"); ("zz", "7")]))
+  = DRes (PO [("n", PI64 7); ("zz", PS "7")]) true None.
 Proof. vm_compute. reflexivity. Qed.
 
 (* non-vacuity: a label/explode path object meets every hypothesis of the object theorem *)
@@ -143,12 +145,14 @@ Print Assumptions C05_deep_set_get.
 (* buildResObj on the parameter tree of a value returns the value read at the declared types: for
    every schema tree of objects (declared properties with non-empty names), arrays and primitives of
    any depth, every value of it (Spec/DeepSpec.reading: primitives that parse to a non-nil value,
-   arrays with at least one element, objects with any subset of the declared members), wherever in
-   the parameter tree the value sits - given that strconv.Atoi inverts strconv.Itoa *)
+   arrays with at least one element, objects with any subset of the declared members and - under
+   additionalProperties - any further members, read at the additionalProperties schema), wherever in
+   the parameter tree the value sits - given that strconv.Atoi inverts strconv.Itoa.  The value is
+   well formed (member names unique) and its member names are non-empty. *)
 Theorem C05_deep_build_reads_value :
   forall parse_int64 parse_int32 parse_float atoi,
   (forall n, atoi (itoa n) = Some (Z.of_nat n)) ->
-  forall s, names_ok s = true -> forall v p root mk key,
+  forall s, names_ok s = true -> forall v p root mk key, wfv v -> nek v ->
     deep_get root (child_path mk key) = Some (tree_of v) ->
     reading parse_int64 parse_int32 parse_float s v = Some p ->
     build parse_int64 parse_int32 parse_float atoi root s mk key = BOk p.
@@ -166,13 +170,15 @@ Theorem C05_deep_key_roundtrip : forall name path, no_byte "["%char name = true 
 Proof. exact key_path_render. Qed.
 (* the deepObject decoder inverts the deepObject serialisation: the query name[k1][k2]...=text of a
    well-formed object value of any depth is decoded to the value read at the declared types,
-   without error (keys in serialisation order; see DESIGN.md for the order) *)
+   without error (keys in serialisation order; see DESIGN.md for the order) - schemas with
+   additionalProperties included: a declared member is read at its own schema, not at the
+   additionalProperties schema (the defect repaired in /repo), any other member at the latter *)
 Theorem C05_deep_object_roundtrip :
   forall parse_int64 parse_int32 parse_float atoi,
   (forall n, atoi (itoa n) = Some (Z.of_nat n)) ->
   forall name s ms p,
     no_byte "["%char name = true -> names_ok s = true ->
-    wfv (VObj ms) -> keys_ok (VObj ms) -> texts_ok (ser [] (VObj ms)) = true ->
+    wfv (VObj ms) -> nek (VObj ms) -> keys_ok (VObj ms) -> texts_ok (ser [] (VObj ms)) = true ->
     reading parse_int64 parse_int32 parse_float s (VObj ms) = Some p ->
     exists found, deep_decode parse_int64 parse_int32 parse_float atoi name s (query_of name (ser [] (VObj ms))) = DRes p found None.
 Proof. exact deep_decode_roundtrip. Qed.
@@ -187,7 +193,7 @@ Theorem C05_deep_object_roundtrip_any_order :
   (forall n, atoi (itoa n) = Some (Z.of_nat n)) ->
   forall name s ms p q',
     no_byte "["%char name = true -> names_ok s = true -> no_ap s = true ->
-    wfv (VObj ms) -> keys_ok (VObj ms) -> texts_ok (ser [] (VObj ms)) = true ->
+    wfv (VObj ms) -> nek (VObj ms) -> keys_ok (VObj ms) -> texts_ok (ser [] (VObj ms)) = true ->
     declared_all s (VObj ms) ->
     reading parse_int64 parse_int32 parse_float s (VObj ms) = Some p ->
     Permutation (query_of name (ser [] (VObj ms))) q' ->
@@ -204,6 +210,18 @@ Example C05_deep_roundtrip_hyps_satisfiable :
   names_ok sch = true /\ no_ap sch = true /\ texts_ok (ser [] (VObj v)) = true /\
   reading pint pint (fun _ => None) sch (VObj v) = Some (PO [("o", PO [("x", PI64 3); ("y", PA [PI64 4])]); ("rows", PA [PO [("k", PS "u")]; PO [("k", PS "v")]])]) /\
   query_of "f" (ser [] (VObj v)) = [("f[o][x]", ["3"]); ("f[o][y][0]", ["4"]); ("f[rows][0][k]", ["u"]); ("f[rows][1][k]", ["v"])].
+Proof. vm_compute. repeat split. Qed.
+(* additionalProperties next to declared properties: the declared member keeps its declared type *)
+Example C05_deep_additional_properties_example :
+  let i := DSPrim (prim_core (Some ["integer"]) "") in
+  let s := DSPrim (prim_core (Some ["string"]) "") in
+  let sch := DSObj [("n", i)] (Some s) in
+  let v := [("n", VPrim "5"); ("x", VPrim "a")] in
+  let pint := fun t => if String.eqb t "5" then Some 5%Z else None in
+  names_ok sch = true /\ texts_ok (ser [] (VObj v)) = true /\
+  reading pint pint (fun _ => None) sch (VObj v) = Some (PO [("n", PI64 5); ("x", PS "a")]) /\
+  deep_decode pint pint (fun _ => None) pint "f" sch [("f[n]", ["5"]); ("f[x]", ["a"])]
+  = DRes (PO [("n", PI64 5); ("x", PS "a")]) true None.
 Proof. vm_compute. repeat split. Qed.
 (* a test, not a theorem: one nested value (object in object, array of objects) through the model *)
 Example C05_deep_example :
